@@ -5,6 +5,11 @@ let rec pos_of_int i = if i = 1 then XH else if i land 1 = 0 then XO (pos_of_int
 let n_of_int i = if i = 0 then N0 else Npos (pos_of_int i)
 let rec int_of_pos = function XH -> 1 | XO p -> 2 * int_of_pos p | XI p -> 2 * int_of_pos p + 1
 let int_of_n = function N0 -> 0 | Npos p -> int_of_pos p
+(* key = <index>:<hex name> *)
+let key x = match String.split_on_char ':' x with
+  | [i; h] -> { kidx = n_of_int (int_of_string i); kname = List.init (String.length h / 2) (fun j -> n_of_int (int_of_string ("0x" ^ String.sub h (2 * j) 2))) }
+  | _ -> failwith "bad key"
+let show_key k = Printf.sprintf "%d:%s" (int_of_n k.kidx) (String.concat "" (List.map (fun b -> Printf.sprintf "%02x" (int_of_n b)) k.kname))
 let () =
   try while true do
     let t = List.filter (fun s -> s <> "") (String.split_on_char ' ' (String.trim (input_line stdin))) in
@@ -18,5 +23,8 @@ let () =
       Printf.printf "F%d | %s | %d %d\n" (if fits l sz then 1 else 0)
         (String.concat " " (List.map (fun ((eo, vo), vs) -> Printf.sprintf "%d:%d:%d" (int_of_n eo) (int_of_n vo) (int_of_n vs)) ps))
         (int_of_n ef) (int_of_n endf)
+    | "S" :: items -> Printf.printf "S%d\n" (if sortedb (List.map key items) then 1 else 0)
+    | "I" :: k :: items -> print_endline (String.concat " " (List.map show_key (insert_key (List.map key items) (key k))))
+    | "L" :: k :: items -> Printf.printf "L%d\n" (if sorted_lookup (List.map key items) (key k) then 1 else 0)
     | _ -> print_endline "?"
   done with End_of_file -> ()
